@@ -293,36 +293,64 @@ def run_check(prop, tier, seed, t0, no_mc=False):
     if judged != n:
         raise vlib.ToolError('judged %d of %d cases' % (judged, n))
 
-    # model drift on MC behaviours (prediction recorded in meta.pred)
-    cases = vlib.read_ndjson(cases_path)
-    recs = vlib.read_ndjson(trace_path)
-    if len(recs) != len(cases):
-        raise vlib.ToolError('trace/cases misaligned: %d vs %d' % (len(recs), len(cases)))
+    # one pass over cases and records in step (the thorough tier has hundreds of thousands of records, gigabytes of
+    # JSON: only what a later step needs is kept - failing, crashed and sample cases, and every id)
+    bad_idx = {i: cls for i, cls in bad}
+    nt = plan['nontrivial']
+    dp = plan.get('drift_prop')
+    keep = {}
+    ids = []
     drift = []
     n_pred = 0
-    for c, r in zip(cases, recs):
-        predh = (c.get('meta') or {}).get('predh')
-        if predh is not None and r.get('hist') is not None:
-            n_pred += 1
-            for pr, st in zip(predh, r['hist']):
-                if pr['k'] != st['res']['k'] or (pr['k'] == 'ok' and pr['lines'] != st['res']['lines']):
-                    drift.append(c['id'])
-                    break
-            continue
-        pred = (c.get('meta') or {}).get('pred')
-        if pred is not None and r.get('runs'):
-            n_pred += 1
-            for pr, rr in zip(pred, r['runs']):
-                obs = rr['res']
-                obs_lines = [[[x[0], x[1]] for x in ln if x[0] >= 0] for ln in obs['lines']] if obs['k'] == 'ok' else []
-                if pr['k'] != obs['k'] or (pr['k'] == 'ok' and pr['lines'] != obs_lines):
-                    drift.append(c['id'])
-                    break
+    crashes = []
+    oversize = []
+    keys = set()
+    nontriv = set()
+    dp_idx = []
+    import itertools
+    with open(cases_path) as fc, open(trace_path) as ft:
+        for i, (lc, lt) in enumerate(itertools.zip_longest(fc, ft)):
+            if lc is None or lt is None:
+                raise vlib.ToolError('trace/cases misaligned at line %d' % (i + 1))
+            c = json.loads(lc)
+            r = json.loads(lt)
+            ids.append(c.get('id'))
+            meta = c.get('meta') or {}
+            predh = meta.get('predh')
+            pred = meta.get('pred')
+            # model drift on MC behaviours (prediction recorded in meta.pred)
+            if predh is not None and r.get('hist') is not None:
+                n_pred += 1
+                for pr, st in zip(predh, r['hist']):
+                    if pr['k'] != st['res']['k'] or (pr['k'] == 'ok' and pr['lines'] != st['res']['lines']):
+                        drift.append(c['id'])
+                        break
+            elif pred is not None and r.get('runs'):
+                n_pred += 1
+                for pr, rr in zip(pred, r['runs']):
+                    obs = rr['res']
+                    obs_lines = [[[x[0], x[1]] for x in ln if x[0] >= 0] for ln in obs['lines']] if obs['k'] == 'ok' else []
+                    if pr['k'] != obs['k'] or (pr['k'] == 'ok' and pr['lines'] != obs_lines):
+                        drift.append(c['id'])
+                        break
+            if dp and meta.get('src') == dp['src']:
+                dp_idx.append(i)
+            if r.get('oversize'):
+                oversize.append(r.get('id'))
+            k = case_key(c)
+            keys.add(k)
+            if not r.get('crash') and nt(r):
+                nontriv.add(k)
+            if r.get('crash'):
+                crashes.append((i, r))
+            if i in bad_idx or r.get('crash') or n_canon <= i < n_canon + 3:
+                keep[i] = (c, r)
+    if oversize:
+        log('[exec] %d record(s) too large to be read back (lines dropped, judged by the totality predicate only): %s' % (len(oversize), oversize[:5]))
     # behaviours of a model whose prediction is an abstract sheet (meta.css): the observed colours against the
     # prediction, through the predicate of another property - as drift of that model, never as a verdict
-    dp = plan.get('drift_prop')
     if dp:
-        idx = [i for i, c in enumerate(cases) if (c.get('meta') or {}).get('src') == dp['src']]
+        idx = dp_idx
         if idx:
             want = set(idx)
             sp = os.path.join(wd, 'driftprop.trace')
@@ -334,13 +362,9 @@ def run_check(prop, tier, seed, t0, no_mc=False):
             tstates += dstates
             n_pred += len(idx)
             for i, _ in dbad:
-                drift.append(cases[idx[i]].get('id'))
+                drift.append(ids[idx[i]])
             log('[model] %d behaviours of %s: observed colours against the predicted sheet (Props!P_%s), %d drift (%.1fs TLC)' % (len(idx), dp['src'], dp['prop'], len(dbad), dwall))
             os.remove(sp)
-    crashes = [(i, r) for i, r in enumerate(recs) if r.get('crash')]
-    oversize = [r.get('id') for r in recs if r.get('oversize')]
-    if oversize:
-        log('[exec] %d record(s) too large to be read back (lines dropped, judged by the totality predicate only): %s' % (len(oversize), oversize[:5]))
     # sampled replay of random cases through the full model (binding impl -> spec; drift, not verdict)
     n_model = plan.get('model_sample', dict(quick=150, thorough=3000))[tier]
     model_checked = 0
@@ -359,7 +383,7 @@ def run_check(prop, tier, seed, t0, no_mc=False):
             mj, mbad, mstates, mwall = vlib.judge(sp, prop, module='TraceModel', max_cases=20)
             tstates += mstates
             for i, _ in mbad:
-                drift.append(cases[model_idx[i]].get('id'))
+                drift.append(ids[model_idx[i]])
             n_pred += model_checked
             log('[model] %d random cases replayed through the model, %d drift (%.1fs TLC)' % (model_checked, len(mbad), mwall))
 
@@ -372,7 +396,6 @@ def run_check(prop, tier, seed, t0, no_mc=False):
         log('[steps] %d runs / %d hook events validated against the step machine, %d mismatching (%.1fs TLC)' % (sn, sev, len(sbad), swall))
 
     # classification
-    bad_idx = {i: cls for i, cls in bad}
     viol_dir = os.path.join(WORK, 'violations', prop)
     import shutil
     shutil.rmtree(viol_dir, ignore_errors=True)      # (replay files of earlier runs would be mistaken for current ones)
@@ -380,7 +403,7 @@ def run_check(prop, tier, seed, t0, no_mc=False):
     violations = []
     known_hits = {}
     for i, cls in sorted(bad_idx.items()):
-        c, r = cases[i], recs[i]
+        c, r = keep[i]
         cid = c.get('id', '')
         if cid.startswith('canon:'):
             fid = cid.split(':')[1]
@@ -400,9 +423,9 @@ def run_check(prop, tier, seed, t0, no_mc=False):
         # a crash / timeout is a violation only for the totality property; elsewhere it is a tool problem
         if prop in ('C01', 'C17'):
             if i not in bad_idx:
-                violations.append((cases[i], r))
+                violations.append((keep[i][0], r))
         else:
-            raise vlib.ToolError('case %s crashed the harness (%s); see C01' % (cases[i].get('id'), r.get('crash')))
+            raise vlib.ToolError('case %s crashed the harness (%s); see C01' % (ids[i], r.get('crash')))
 
     for f in findings:
         if known_hits.get(f['id']):
@@ -424,15 +447,7 @@ def run_check(prop, tier, seed, t0, no_mc=False):
             break
 
     # evidence
-    nt = plan['nontrivial']
-    keys = set()
-    nontriv = set()
-    for c, r in zip(cases, recs):
-        k = case_key(c)
-        keys.add(k)
-        if not r.get('crash') and nt(r):
-            nontriv.add(k)
-    ok_samples = [sample_of(c, r) for c, r in list(zip(cases, recs))[n_canon:n_canon + 3]]
+    ok_samples = [sample_of(*keep[i]) for i in range(n_canon, n_canon + 3) if i in keep]
     coverage = {
         'states': max(1, mc_info['states'] + tstates),
         'transitions': max(1, mc_info['transitions'] + tstates),
